@@ -14,6 +14,7 @@ RFC 6979 and the tagged hashes).
 """
 from sxlib import *
 from core import Obligation
+from limbs import Limbs, Undecided, Frame, padd, pscale, patom, pconst, Val
 
 PROPS = {"C05", "C01", "C02"}
 
@@ -280,6 +281,64 @@ def hmac_obligations(prog):
                           "the outer hash absorbs key ^ 0x5c and the inner hash key ^ 0x36", ok,
                           "; ".join("%s <- key ^ 0x%02x" % (k, v) for k, v in sorted(seen.items())) or "no keyed writes found", props=PROPS))
     return obs
+
+
+def be_region(prog, f, nbytes, input_ub, want_arr=None):
+    """Final content, as one big-endian integer form, of bytes [0, nbytes) of a local byte array that the function fills with
+    secp256k1_write_be32 / secp256k1_write_be64 stores (last writer per byte; bytes no store reaches are zero when the
+    array has a `= {0}` initialiser).  Returns (array name, polynomial, engine) or raises Undecided."""
+    stores = []
+    for el, c in f.all_calls():
+        n = {"secp256k1_write_be32": 4, "secp256k1_write_be64": 8}.get(callee_name(c))
+        if not n:
+            continue
+        a = strip(c[3][0])
+        if kind(a) == "addr" and kind(strip(a[1])) == "index":
+            root, off = lvalue_root(a), int_val(strip(a[1])[2])
+        elif kind(a) == "decay":
+            root, off = lvalue_root(a), 0
+        else:
+            continue
+        if root is None or off is None or not (f.vars.get(root[1]) or {}).get("array_n"):
+            continue
+        if want_arr and root[1] != want_arr:
+            continue
+        stores.append((el, c, n, off, root[1]))
+    arrs = {s[4] for s in stores if s[3] < nbytes}
+    if len(arrs) != 1:
+        raise Undecided("%d candidate arrays" % len(arrs))
+    arr = arrs.pop()
+    stores = [s for s in stores if s[4] == arr]
+    # program order: all stores must lie in one block chain without branching in between (straight-line prefix)
+    order = sorted(stores, key=lambda s: (-s[0].blk, s[0].idx))
+    zero_init = False
+    for el in f.elems():
+        if kind(el.e) == "decls":
+            for d in el.e[1:]:
+                if d[1] == arr and d[2] is not None and kind(d[2]) == "init":
+                    zero_init = all(is_int(x, 0) for x in d[2][1:] if kind(x) != "elided")
+    L = Limbs(prog, input_ub)
+    fr = Frame(f, "")
+    byte_src = {}
+    for el, c, n, off, _a in order:
+        L.loc = el.loc
+        w = L.fit(L.ev(c[3][1], fr), 8 * n, "argument of %s" % c[1])
+        for j in range(n):
+            if off + j < nbytes:
+                byte_src[off + j] = (w, n - 1 - j)          # byte j of the store is byte (n-1-j) of the word
+    total = {}
+    for pos in range(nbytes):
+        if pos not in byte_src:
+            if zero_init:
+                continue
+            raise Undecided("byte %d of %s is not written by a word store" % (pos, arr))
+        w, b = byte_src[pos]
+        lo, q = L.split(w, 1 << (8 * b), "byte %d" % b)
+        lo2, q2 = L.split(q, 256, "byte %d" % b)
+        total = padd(total, pscale(lo2.p, 1 << (8 * (nbytes - 1 - pos))))
+    if L.undecided:
+        raise Undecided("; ".join(L.undecided[:2]))
+    return arr, total, L
 
 
 def obligations(prog):
